@@ -121,7 +121,24 @@ Definition bom_prefix (enc : N) (line : str) : bool :=
   else if N.eqb enc 2 then starts_with [239%N; 187%N; 191%N] line
   else false.
 
-Definition table_representable (pol : policy) (dlm : str) (enc : N) (rows : list (list str)) : bool :=
+(* every record representable and no byte order mark confusion: the table reads back identically up to
+   CR / CRLF inside quoted_rfc fields, which come back as LF *)
+Definition table_ok (pol : policy) (dlm : str) (enc : N) (rows : list (list str)) : bool :=
   forallb (representable pol dlm) rows
-  && forallb (fun fs => forallb (fun f => negb (has CR f)) fs) rows
   && match rows with r :: _ => negb (bom_prefix enc (join_line pol dlm r)) | [] => true end.
+
+Definition table_representable (pol : policy) (dlm : str) (enc : N) (rows : list (list str)) : bool :=
+  table_ok pol dlm enc rows && forallb (fun fs => forallb (fun f => negb (has CR f)) fs) rows.
+
+(* line-break normalisation of the readers: CRLF and CR become LF *)
+Fixpoint nl_norm (s : str) : str :=
+  match s with
+  | [] => []
+  | c :: t =>
+      if N.eqb c CR then
+        match t with
+        | d :: t' => if N.eqb d LF then LF :: nl_norm t' else LF :: nl_norm t
+        | [] => [LF]
+        end
+      else c :: nl_norm t
+  end.
